@@ -325,8 +325,17 @@ type jsonStyle struct {
 
 func (st jsonStyle) String() string { return st.escape + "/" + st.ws + "/" + st.wrap }
 
-func jsonStyles(quick bool) []jsonStyle {
+// jsonStyles: full = every escape style x white-space style x wrapping; the
+// reduced list covers every escape style, every white-space style and every
+// wrapping at least once.
+func jsonStyles(full bool) []jsonStyle {
 	var out []jsonStyle
+	if !full {
+		return []jsonStyle{
+			{"minimal", "compact", "array"}, {"minimal", "pretty-crlf-tab", "concat"}, {"uall", "spaced", "lines"}, {"uall", "pretty-lf", "array"},
+			{"ucontrol", "compact", "concat"}, {"ucontrol", "pretty-lf", "concat"}, {"solidus", "spaced", "array"}, {"solidus", "compact", "lines"},
+		}
+	}
 	for _, e := range []string{"minimal", "uall", "ucontrol", "solidus"} {
 		for _, w := range []string{"compact", "spaced", "pretty-lf", "pretty-crlf-tab"} {
 			for _, wr := range []string{"array", "concat", "lines"} {
